@@ -50,6 +50,15 @@ def cleanup():
         return
     for d in _scratch_dirs:
         shutil.rmtree(d, ignore_errors=True)
+    # the chain library's logger, where a driver leaves it at its default, writes /tmp/tmp-mass.log-*.log: nothing reads
+    # them; keep them from growing without bound
+    import glob
+    for f in glob.glob("/tmp/tmp-mass.log-*.log"):
+        try:
+            if os.path.getsize(f) > 200 << 20:
+                open(f, "w").close()
+        except OSError:
+            pass
 
 
 def build(cmd, race=False, tags="verif"):
